@@ -15,6 +15,7 @@ import Cnl2aspModel.Compiler.Scope
 import Cnl2aspModel.Compiler.Explain
 import Cnl2aspModel.Compiler.Link
 import Cnl2aspModel.Compiler.Value
+import Cnl2aspModel.Cnl.Codec
 
 open Lean Cnl2aspModel
 
@@ -352,6 +353,7 @@ def dispatch (op : String) (j : Json) : Json :=
   | "c17.check" => Ops.C17.run j
   | "c15.printer" => Ops.c15printer j
   | "c06.value" => Ops.c06value j
+  | "c01.compile" => Core.Codec.compileOp j
   | "c08.origin" => Ops.C08.origin j
   | "c08.link" => Ops.C08.link j
   | _ => Json.mkObj [("err", "bad-op")]
